@@ -15,6 +15,21 @@ use vcore::{CaseResult, Failure};
 
 pub const INITIAL_COMMITMENT_NUMBER: u64 = (1 << 48) - 1;
 
+/// (node, channel_keys_id) -> channel index, learned from the signatures made during channel establishment.
+pub fn initial_keys_map(sim: &Sim) -> BTreeMap<(usize, [u8; 32]), usize> {
+	let mut m = BTreeMap::new();
+	for (_, e) in hist_since(0) {
+		if let HEvent::SignCounterparty { node, keys_id, params, .. } = e {
+			if let Some(fo) = params.funding_outpoint {
+				if let Some(c) = sim.chans.iter().position(|c| c.funding_tx.compute_txid() == fo.txid) {
+					m.insert((node, keys_id), c);
+				}
+			}
+		}
+	}
+	m
+}
+
 #[derive(Default)]
 struct SideState {
 	/// numbers whose secret this node released, in order of first release
@@ -290,7 +305,7 @@ impl RevokeOracle {
 						}
 					}
 				},
-				M::S(SEvent::Broadcast { node, tx }) => {
+				M::S(SEvent::Broadcast { node, tx, .. }) => {
 					// (b) a broadcast commitment transaction of this node must not be one it has revoked
 					for (chan, c) in sim.chans.iter().enumerate() {
 						if !(c.a == node || c.b == node) {
